@@ -145,6 +145,10 @@ type c10Patch struct {
 	Xfs      []c10Xf          `json:"xfs"`
 	Policy   *c10Policy       `json:"policy"`
 	MergeOrc []map[string]any `json:"mergeOrc"`
+	// compose scenarios: mergo verdicts for the apply option this patch contributes (c10_compose.go)
+	ApplyOrc []map[string]any `json:"applyOrc,omitempty"`
+	// set by c10FillPatchOracles: the value the patch is to write (source read, transforms done)
+	out any
 }
 
 type c10Scn struct {
@@ -542,6 +546,7 @@ func c10Lookup(content map[string]any, raw string) (any, error) {
 // The result tells whether source and transforms succeeded, i.e. whether the real patch reaches
 // the phase that writes the destination.
 func c10FillPatchOracles(p *c10Patch, xr, cd map[string]any, mons *[]Mon) bool {
+	p.out = nil
 	typ := p.Type
 	if typ == "" {
 		typ = "FromCompositeFieldPath"
@@ -595,6 +600,7 @@ func c10FillPatchOracles(p *c10Patch, xr, cd map[string]any, mons *[]Mon) bool {
 	if !ok {
 		return false
 	}
+	p.out = out
 	mo := c10RealMO(p.Policy)
 	if typ == "CombineFromComposite" || typ == "CombineToComposite" {
 		mo = nil
@@ -764,6 +770,18 @@ func c10RunPatch(s *c10Scn) (map[string]any, []Mon, string) {
 	}
 	// monitor: an optional patch whose source is missing is a no-op, a required one an error
 	c10PolicyMonitor(s.Patch, s.Only, xrC, cdC, ec, xrA, cdA, &mons)
+	// monitor: only a patch whose SOURCE is missing may be a no-op – a patch that is not filtered
+	// out, whose source path(s) resolve and whose transforms succeed either fails or writes its
+	// destination
+	if isXR, known := c10SourceIsXR(s.Patch); known && c10PassesOnly(s.Patch, s.Only) {
+		before, after := cdC, cdA
+		if !isXR {
+			before, after = xrC, xrA
+		}
+		if c10PresentSourceSkipped(s.Patch, reachedDest, s.Patch.out, ec, before, after) {
+			mons = append(mons, Mon{Sig: "C10:present-source-skipped", Why: "the source path(s) of the patch resolve and the transforms succeed, the patch reported success, yet the destination was not written"})
+		}
+	}
 	// monitor: determinism – a second run on fresh copies gives the same result
 	ec2, xrB, cdB := run()
 	if strings.HasPrefix(ec2, "panic:") {
@@ -808,6 +826,19 @@ func c10RunPatch(s *c10Scn) (map[string]any, []Mon, string) {
 	}
 	cls := fmt.Sprintf("patch/%s/%s%s%s/x%d/%s", c10Or(s.Patch.Type, "default"), pol, mo, wild, len(s.Patch.Xfs), res)
 	return obs, mons, cls
+}
+
+// c10PassesOnly: the patch is not dropped by the `only` filter (which compares the raw type).
+func c10PassesOnly(p *c10Patch, only []string) bool {
+	if len(only) == 0 {
+		return true
+	}
+	for _, o := range only {
+		if o == p.Type {
+			return true
+		}
+	}
+	return false
 }
 
 // c10WildDest: a from/to-field-path patch whose destination path has a wildcard.
